@@ -42,17 +42,35 @@ def b64_chars(bytes3, alphabet):
 
 def detector(ctx, prog):
     f = prog.one(r'bitmap::<impl at [^>]*>::deserialize_compressed_base64$')
-    # the literal of the starts_with test, from the MIR text of the function
-    lits = []
-    for b in f.blocks.values():
-        if b.term and b.term[0] == 'call' and 'starts_with' in str(b.term[2]):
-            for a in b.term[3]:
-                if a[0] == 'const' and a[1].startswith('"'):
-                    lits.append(a[1].strip('"'))
-    if len(lits) != 1:
-        raise Refuse('expected exactly one starts_with literal in deserialize_compressed_base64, found %r' % lits)
-    L = lits[0].encode()
-    ctx.samples.append('legacy detector literal in the MIR: %r' % lits[0])
+    # literal and polarity of the format test, from the executed paths of the function: the `starts_with` argument (a string
+    # literal or a named constant) and which of its outcomes leads to the legacy unwrapping (a standard-Base64 decode)
+    A = Auditor(ctx, prog)
+    paths, ex = A.paths(f)
+    lits, legacy_when = set(), set()
+    for p in paths:
+        sw = [c for c in p.find_calls(r'starts_with$')]
+        if not sw:
+            continue
+        if len(sw) != 1:
+            raise Refuse('more than one starts_with test on a path of deserialize_compressed_base64')
+        lit = None
+        for a in sw[0].args:
+            a = strip(a)
+            if isinstance(a, tuple) and a and a[0] == 'const' and isinstance(a[1], bytes):
+                lit = a[1]
+        if lit is None:
+            raise Refuse('starts_with argument is not a constant string: %s' % term_str(sw[0].args[-1])[:120])
+        lits.add(lit)
+        outcome = 'true' if p.took(sw[0].ret, 'true') else ('false' if p.took(sw[0].ret, 'false') else None)
+        std = [c for c in p.find_calls(r'BaseEncoding::decode$') if re.search(r'Base64\b', term_str(c.args[1])) and 'Base64Url' not in term_str(c.args[1])]
+        if std and outcome:
+            legacy_when.add(outcome)
+    if len(lits) != 1 or len(legacy_when) != 1:
+        raise Refuse('format test not recognised: literals %r, legacy unwrapping when starts_with is %r' % (lits, legacy_when))
+    L = lits.pop()
+    pol = legacy_when.pop() == 'true'      # True: a match means legacy; False: a match means current
+    lits = [L.decode('latin1')]
+    ctx.samples.append('legacy detector: starts_with(%r) == %s selects the legacy unwrapping' % (lits[0], pol))
     if len(L) > 4 or not L:
         raise Refuse('detector literal longer than the first base64 quantum')
     b2 = z3.BitVec('deflate_byte', 8)
@@ -61,8 +79,9 @@ def detector(ctx, prog):
     # legacy = Base64(standard alphabet) over the ASCII of the fresh text
     leg = b64_chars(fresh[:3], STD)
     leg_starts = z3.And(*[leg[i] == L[i] for i in range(len(L))])
-    goals = [('a freshly encoded bitmap whose first deflate byte is b2 is classified as legacy', [z3.Not(starts)]),
-             ('a legacy double-encoded endpoint is classified as current', [leg_starts])]
+    is_legacy = (lambda m: m) if pol else (lambda m: z3.Not(m))   # noqa
+    goals = [('a freshly encoded bitmap whose first deflate byte is b2 is classified as legacy', [is_legacy(starts)]),
+             ('a legacy double-encoded endpoint is classified as current', [z3.Not(is_legacy(leg_starts))])]
     v = vc.check_formulas(goals)
     funcs = [short(f.name)]
     name = 'legacy-detector/classifies-every-zlib-default-stream-and-its-legacy-form'
@@ -110,10 +129,10 @@ def run(ctx, prog):
         sw = [c for c in p.find_calls(r'starts_with$')]
         if not sw:
             return 'format not detected'
-        if p.took(sw[0].ret, 'true'):
-            return None if mentions(url[0].args[0], r'^data$') and not apps(url[0].args[0], r'from_utf8$') else 'current-format data not decoded directly'
         std = [c for c in decs if re.search(r'Base64\b', term_str(c.args[1])) and 'Base64Url' not in term_str(c.args[1])]
-        if not std or not apps(url[0].args[0], r'from_utf8$'):
+        if not std:
+            return None if mentions(url[0].args[0], r'^data$') and not apps(url[0].args[0], r'from_utf8$') else 'current-format data not decoded directly'
+        if not apps(url[0].args[0], r'from_utf8$'):
             return 'legacy data not base64-decoded first'
         return None
     A.require('deserialize/pipeline-base64url-zlib-roaring-with-legacy-unwrapping', okp, r_des, replay=R('[roundtrip]'))
